@@ -80,7 +80,7 @@ def shrink_ops(r, mod_name, run_fn, driver_kind, mask_model, oracle_props, budge
 
 def correspondence(rep, *, prop, mod_name, driver_kind, ncases, extra=(), nontrivial=None,
                    oracle_props=None, run_fn="run_impl", index_base=0, sample_fmt=None,
-                   shrink=None, max_report=3, mask_model=None, post=None, legal_only=False):
+                   shrink=None, max_report=3, mask_model=None, post=None, legal_only=False, opt_sample=5):
     """Runs `ncases` generated cases. Returns aggregated stats. Reports violations into `rep`."""
     oracle_props = oracle_props or {prop}
     t0 = time.time()
@@ -121,6 +121,35 @@ def correspondence(rep, *, prop, mod_name, driver_kind, ncases, extra=(), nontri
                        "exception": code_exc[0]["code_exception"]}, False,
                       f"{prop}: {len(code_exc)} of {nall} scenarios raise inside the code under test ({code_exc[0]['code_exception']}); "
                       f"the property could not be exercised on them")
+    # ---- the same first few cases in fresh interpreters, once normally and once under `python -O` (asserts stripped):
+    # what the library does must not depend on that
+    if (only is None or only == "") and not os.environ.get("VERIF_NO_OPT_RERUN") and run_fn == "run_impl":
+        import subprocess, sys, json
+        sample = [(rep.seed, i, list(extra)) for i in indices[:opt_sample]]
+        req = json.dumps({"mod": mod_name, "fn": run_fn, "jobs": sample})
+        env = dict(os.environ, PYTHONHASHSEED="0")
+        runs = []
+        for flag in ([], ["-O"]):
+            p_ = subprocess.run([sys.executable] + flag + ["-m", "harness.rerun_opt"], input=req, capture_output=True, text=True,
+                                cwd=lib.VERIF, env=env, timeout=600)
+            try:
+                runs.append(json.loads(p_.stdout))
+            except Exception:
+                raise lib.Infra("re-run of sample cases failed: " + (p_.stderr or p_.stdout)[-400:])
+        for a_, b_ in zip(*runs):
+            if a_ != b_:
+                what = ("raises " + b_["raised"]) if "raised" in b_ and "raised" not in a_ else "observable behaviour differs"
+                k_ = first_diff(a_.get("obs") or [], b_.get("obs") or [])
+                rep.violation({"kind": "spec-violation", "model": driver_kind, "case_index": a_["idx"], "seed": rep.seed,
+                               "corpus_key": {"mod": mod_name, "extra": list(extra)}, "python_O": True,
+                               "normal": {"obs_at_diff": (a_.get("obs") or [None])[k_] if k_ is not None and k_ < len(a_.get("obs") or []) else None,
+                                          "fails": a_.get("fails"), "raised": a_.get("raised")},
+                               "optimized": {"obs_at_diff": (b_.get("obs") or [None])[k_] if k_ is not None and k_ < len(b_.get("obs") or []) else None,
+                                             "fails": b_.get("fails"), "raised": b_.get("raised")},
+                               "how_to_replay": f"echo '{req}' | python -O -m harness.rerun_opt   (and without -O)"}, True,
+                              f"{prop}: under `python -O` (assert statements stripped) the same scenario {what}: the library relies on a "
+                              f"side effect inside an assert statement")
+                break
     if post:
         results = [post(r) for r in results]
     t_impl = time.time() - t0
